@@ -38,8 +38,17 @@ ATTR = {
 }
 # python annotation -> model type tag
 ANNOT = {'int': 'int', 'bool': 'bool', 'Strand': 'strand', 'Exon': 'exon', 'UIntRange': 'range', 'IntPatternBuilder': 'pt', 'CdsSeq': 'cds',
-         'TargetonConfig': 'tcfg'}
-COQ_TYPE = {'int': 'Z', 'bool': 'bool', 'strand': 'strand', 'exon': 'exon', 'range': 'range', 'pt': 'pt', 'cds': 'cds_seq', 'tcfg': 'tcfg', 'unit': 'unit'}
+         'TargetonConfig': 'tcfg', 'str': 'str', 'str | None': 'ostr', 'VariantType': 'vtype'}
+COQ_TYPE = {'int': 'Z', 'bool': 'bool', 'strand': 'strand', 'exon': 'exon', 'range': 'range', 'pt': 'pt', 'cds': 'cds_seq', 'tcfg': 'tcfg', 'unit': 'unit',
+            'str': 'string', 'ostr': '(option string)', 'vtype': 'vtype', 'strenum': 'string'}
+# members of the IntEnum VariantType -> constructors of the model's vtype
+VTYPE_MEMBERS = {'INSERTION': 'VIns', 'DELETION': 'VDel', 'SUBSTITUTION': 'VSub', 'UNKNOWN': 'VUnknown'}
+
+
+def coq_string(x: str) -> str:
+    if any(ord(c) < 32 or ord(c) > 126 for c in x):
+        raise TransError('non-printable character in a string literal')
+    return '"' + x.replace('"', '""') + '"'
 ERR = {'ValueError': 'ValueError', 'AssertionError': 'AssertionError'}
 
 
@@ -56,6 +65,10 @@ class Translator:
         self.wrap_some = False
         self.cur_self = None
         self.procedure = False
+        self.consts: dict[str, tuple[str, str]] = {}     # module-level constants: name -> (coq term, type tag)
+        self.str_enums: dict[str, dict[str, str]] = {}    # string Enum classes: class -> {member: value}
+        self.nodes: dict[str, ast.FunctionDef] = {}       # translated functions by call key (for the format-only check)
+        self.noreturn: set[str] = set()
 
     # ------------------------------------------------------------ expressions
     def tmp(self):
@@ -69,11 +82,29 @@ class Translator:
                 return ('true' if e.value else 'false'), 'bool'
             if isinstance(e.value, int):
                 return (f'({e.value})' if e.value < 0 else str(e.value)), 'int'
+            if isinstance(e.value, str):
+                return f'({coq_string(e.value)}%string)', 'str'
+            if e.value is None:
+                return 'None', 'none'
             raise TransError(f'constant {e.value!r}')
         if isinstance(e, ast.Name):
-            if e.id not in env:
-                raise TransError(f'unknown name {e.id}')
-            return env[e.id]
+            if e.id in env:
+                return env[e.id]
+            if e.id in self.consts:
+                return self.consts[e.id]
+            raise TransError(f'unknown name {e.id}')
+        if isinstance(e, ast.JoinedStr):
+            # f-string: literal pieces and {int} / {str} / {optional str} / {call} pieces, no format specs
+            parts = []
+            for piece in e.values:
+                if isinstance(piece, ast.Constant) and isinstance(piece.value, str):
+                    parts.append(coq_string(piece.value))
+                elif isinstance(piece, ast.FormattedValue) and piece.conversion == -1 and piece.format_spec is None:
+                    v, t = self.expr(piece.value, env, binds)
+                    parts.append(self.as_text(v, t))
+                else:
+                    raise TransError('f-string piece')
+            return '(' + ' ++ '.join(parts or ['""']) + ')%string', 'str'
         if isinstance(e, ast.Tuple):
             parts = [self.expr(x, env, binds) for x in e.elts]
             return '(' + ', '.join(p for p, _ in parts) + ')', 'tuple:' + ','.join(t for _, t in parts)
@@ -83,18 +114,46 @@ class Translator:
                 return f'(- {v})', 'int'
             if isinstance(e.op, ast.Not) and t == 'bool':
                 return f'(negb {v})', 'bool'
+            if isinstance(e.op, ast.Not) and t == 'str':
+                return f'(sempty {v})', 'bool'
+            if isinstance(e.op, ast.Not) and t == 'ostr':
+                return f'(onull {v})', 'bool'      # None or the empty string
             raise TransError('unary operator')
         if isinstance(e, ast.BinOp):
             a, ta = self.expr(e.left, env, binds)
             b, tb = self.expr(e.right, env, binds)
             ops = {ast.Add: '+', ast.Sub: '-', ast.Mult: '*', ast.FloorDiv: '/', ast.Mod: 'mod'}
+            if isinstance(e.op, ast.Add) and ta == 'str' and tb == 'str':
+                return f'({a} ++ {b})%string', 'str'
             if type(e.op) not in ops or ta != 'int' or tb != 'int':
                 raise TransError('binary operator')
             return f'({a} {ops[type(e.op)]} {b})', 'int'
         if isinstance(e, ast.BoolOp):
-            vals = [self.expr(x, env, binds) for x in e.values]
+            # `and` / `or` evaluate lazily: an operand after the first that may raise is only run when it is reached
+            lazy = []
+            for i, x in enumerate(e.values):
+                inner = [] if i > 0 else binds
+                lazy.append((self.expr(x, env, inner), [] if i == 0 else inner))
+            if any(inner for _, inner in lazy):
+                if any(t != 'bool' for (_, t), _ in lazy):
+                    raise TransError('boolean operator on non-booleans')
+                is_or = isinstance(e.op, ast.Or)
+                (cur, _), _ = lazy[0]
+                pure = True
+                for (v, _), inner in lazy[1:]:
+                    if pure and not inner:
+                        cur = f'({cur} || {v})' if is_or else f'({cur} && {v})'
+                        continue
+                    rest = self.wrap(inner, f'Ok {v}')
+                    x = self.tmp()
+                    binds.append((x, f'(if {cur} then Ok true else {rest})' if is_or else f'(if {cur} then {rest} else Ok false)'))
+                    cur = x
+                return cur, 'bool'
+            vals = [v for v, _ in lazy]
             if isinstance(e.op, ast.Or) and len(vals) == 2 and vals[0][1] == 'option:range' and vals[1][1] == 'range':
                 return f'(match {vals[0][0]} with Some _r => _r | None => {vals[1][0]} end)', 'range'     # `x or default` on an optional range
+            if isinstance(e.op, ast.Or) and len(vals) == 2 and vals[1][1] == 'none' and vals[0][1] in ('str', 'ostr'):
+                return (f'(nonempty {vals[0][0]})' if vals[0][1] == 'str' else f'(ononempty {vals[0][0]})'), 'ostr'     # `s or None`
             if any(t != 'bool' for _, t in vals):
                 raise TransError('boolean operator on non-booleans')
             op = ' && ' if isinstance(e.op, ast.And) else ' || '
@@ -112,6 +171,12 @@ class Translator:
                         raise TransError('`in` is only translated for a position or a range in a range / exon')
                     t = f'(in_range {a} {b})' if ta == 'int' else f'(range_in {a} {b})'
                     terms.append(t if isinstance(op, ast.In) else f'(negb {t})')
+                elif isinstance(op, (ast.Is, ast.IsNot)):
+                    a, ta = self.expr(left, env, binds)
+                    b, tb = self.expr(right, env, binds)
+                    if tb != 'none' or ta != 'ostr':
+                        raise TransError('`is` is only translated for an optional string against None')
+                    terms.append(f'(ois_none {a})' if isinstance(op, ast.Is) else f'(negb (ois_none {a}))')
                 else:
                     a, ta = self.expr(left, env, binds)
                     b, tb = self.expr(right, env, binds)
@@ -131,19 +196,35 @@ class Translator:
             inner_a, inner_b = [], []
             a, ta = self.expr(e.body, env, inner_a)
             b, tb = self.expr(e.orelse, env, inner_b)
-            if inner_a or inner_b:
-                # only the taken branch is evaluated in Python: a call that may raise can be hoisted out of the conditional only when
-                # both branches make exactly the same calls
-                if [m for _, m in inner_a] != [m for _, m in inner_b]:
-                    raise TransError('different calls that may raise in the two branches of a conditional expression')
-                for (xa, _), (xb, _) in zip(inner_a, inner_b):
-                    b = b.replace(xb, xa)
-                binds.extend(inner_a)
+            if ta != tb and {ta, tb} <= {'str', 'none', 'ostr'}:
+                # str / None branches: an optional string
+                a = f'(Some {a})' if ta == 'str' else a
+                b = f'(Some {b})' if tb == 'str' else b
+                ta = tb = 'ostr'
             if tc != 'bool' or ta != tb:
                 raise TransError('conditional expression types')
+            if inner_a or inner_b:
+                # only the taken branch is evaluated in Python: a call that may raise can be hoisted out of the conditional only when
+                # both branches make exactly the same calls; otherwise the conditional itself becomes a monadic step
+                if [m for _, m in inner_a] == [m for _, m in inner_b]:
+                    for (xa, _), (xb, _) in zip(inner_a, inner_b):
+                        b = b.replace(xb, xa)
+                    binds.extend(inner_a)
+                else:
+                    x = self.tmp()
+                    binds.append((x, f'(if {c} then {self.wrap(inner_a, "Ok " + a)} else {self.wrap(inner_b, "Ok " + b)})'))
+                    return x, ta
             return f'(if {c} then {a} else {b})', ta
         if isinstance(e, ast.Attribute):
+            if isinstance(e.value, ast.Name) and e.value.id in self.str_enums and e.attr in self.str_enums[e.value.id]:
+                return f'({coq_string(self.str_enums[e.value.id][e.attr])}%string)', 'strenum'     # a member of a string Enum: its value
+            if isinstance(e.value, ast.Name) and e.value.id == 'VariantType' and e.attr in VTYPE_MEMBERS:
+                return VTYPE_MEMBERS[e.attr], 'vtype'
             v, t = self.expr(e.value, env, binds)
+            if t == 'strenum' and e.attr == 'value':
+                return v, 'str'
+            if t == 'vtype' and e.attr == 'value':
+                return f'(vtype_value {v})', 'int'
             key = (t, e.attr)
             if key in ATTR:
                 acc, ty = ATTR[key]
@@ -170,6 +251,14 @@ class Translator:
                     return f'(Z.abs {args[0][0]})', 'int'
                 if f.id in ('max', 'min') and len(args) == 2:
                     return f'(Z.{f.id} {args[0][0]} {args[1][0]})', 'int'
+                if f.id == 'str' and len(args) == 1 and args[0][1] == 'int':
+                    return f'(zstr {args[0][0]})', 'str'
+                if f.id == 'len' and len(args) == 1 and args[0][1] == 'str':
+                    return f'(slen {args[0][0]})', 'int'
+                if f.id == 'len' and len(args) == 1 and args[0][1] == 'ostr':
+                    x = self.tmp()
+                    binds.append((x, f'olen {args[0][0]}'))      # len(None) raises
+                    return x, 'int'
                 if f.id == 'len' and len(args) == 1 and args[0][1] == 'range':
                     return f'(rlen {args[0][0]})', 'int'
                 if f.id == 'len' and len(args) == 1 and args[0][1] == 'exon':
@@ -182,8 +271,9 @@ class Translator:
                 if fn is not None:
                     if len(args) != len(fn.params):
                         raise TransError(f'arity of {f.id}')
+                    args = [self.coerce(a, ta, tp, f.id, pn) for (a, ta), (pn, tp) in zip(args, fn.params)]
                     x = self.tmp()
-                    binds.append((x, f'{fn.coq_name} ' + ' '.join(a for a, _ in args)))
+                    binds.append((x, (f'{fn.coq_name} ' + ' '.join(a for a, _ in args)).strip()))
                     return x, fn.ret
                 raise TransError(f'call of {f.id}')
             if isinstance(f, ast.Attribute):
@@ -196,6 +286,39 @@ class Translator:
                 raise TransError(f'method {t}.{f.attr}')
             raise TransError('call')
         raise TransError(f'expression {type(e).__name__}')
+
+    @staticmethod
+    def as_text(v, t):
+        """How a value appears inside an f-string."""
+        if t == 'int':
+            return f'(zstr {v})'
+        if t in ('str', 'strenum'):
+            return v
+        if t == 'ostr':
+            return f'(fmt_ostr {v})'        # None prints as the text None
+        raise TransError(f'formatting of a {t}')
+
+    def format_only(self, key: str, param: str) -> bool:
+        """The parameter is used only as a piece of an f-string in the callee (so that handing it None changes the text, never raises)."""
+        node = self.nodes.get(key)
+        if node is None:
+            return False
+        inside = set()
+        for n in ast.walk(node):
+            if isinstance(n, ast.FormattedValue) and isinstance(n.value, ast.Name) and n.value.id == param:
+                inside.add(id(n.value))
+        return all(id(n) in inside for n in ast.walk(node) if isinstance(n, ast.Name) and n.id == param)
+
+    def coerce(self, a, ta, tp, fkey, pname):
+        if ta == tp or (ta == 'strenum' and tp in ('str', 'strenum')):
+            return a, tp
+        if tp == 'ostr' and ta == 'str':
+            return f'(Some {a})', tp
+        if tp == 'ostr' and ta == 'none':
+            return 'None', tp
+        if tp == 'str' and ta == 'ostr' and self.format_only(fkey, pname):
+            return f'(fmt_ostr {a})', tp      # Python passes the object along; the callee only formats it
+        raise TransError(f'argument {pname} of {fkey}: {ta} given, {tp} expected')
 
     @staticmethod
     def wrap(binds, body):
@@ -238,6 +361,11 @@ class Translator:
                 raise TransError('assert of a non-boolean')
             body, t = self.block(rest, env)
             return self.wrap(binds, f'if {c} then {body} else Err AssertionError'), t
+        if isinstance(st, ast.Expr) and isinstance(st.value, ast.Call) and isinstance(st.value.func, ast.Name) and st.value.func.id in self.noreturn \
+                and not st.value.args:
+            return f'{self.fns[st.value.func.id].coq_name}', None       # a call that never returns: the rest is dead
+        if isinstance(st, ast.AnnAssign) and isinstance(st.target, ast.Name) and st.value is not None:
+            st = ast.Assign(targets=[st.target], value=st.value)
         if isinstance(st, ast.Assign) and len(st.targets) == 1 and isinstance(st.targets[0], ast.Name):
             binds = []
             v, t = self.expr(st.value, env, binds)
@@ -303,6 +431,39 @@ class Translator:
                 return x
         raise TransError(f'branches return different types: {a} / {b}')
 
+    # ------------------------------------------------------------ module level: enums and integer constants
+    def module_facts(self, trees):
+        for tree in trees.values():
+            for c in tree.body:
+                if isinstance(c, ast.ClassDef) and any(ast.unparse(b) == 'Enum' for b in c.bases):
+                    members = {}
+                    for st in c.body:
+                        if isinstance(st, ast.Assign) and len(st.targets) == 1 and isinstance(st.targets[0], ast.Name) \
+                                and isinstance(st.value, ast.Constant) and isinstance(st.value.value, str):
+                            members[st.targets[0].id] = st.value.value
+                    if members:
+                        self.str_enums[c.name] = members
+                if isinstance(c, ast.ClassDef) and c.name == 'VariantType':
+                    vals = {}
+                    for st in c.body:
+                        if isinstance(st, ast.Assign) and len(st.targets) == 1 and isinstance(st.targets[0], ast.Name) \
+                                and isinstance(st.value, ast.Constant) and isinstance(st.value.value, int):
+                            vals[st.targets[0].id] = st.value.value
+                    if set(vals) != set(VTYPE_MEMBERS):
+                        raise TransError(f'VariantType members {sorted(vals)}')
+                    self.out.append('Definition vtype_value (v : vtype) : Z :=\n  match v with ' +
+                                    ' | '.join(f'{VTYPE_MEMBERS[m]} => {vals[m]}' for m in VTYPE_MEMBERS) + ' end.\n')
+        for tree in trees.values():
+            for st in tree.body:
+                if isinstance(st, ast.AnnAssign) and isinstance(st.target, ast.Name) and st.value is not None and ast.unparse(st.annotation) == 'int':
+                    try:
+                        v, t = self.expr(st.value, {}, [])
+                    except TransError:
+                        continue
+                    if t == 'int':
+                        self.out.append(f'Definition {cname(st.target.id)} : Z := {v}.\n')
+                        self.consts[st.target.id] = (cname(st.target.id), 'int')
+
     # ------------------------------------------------------------ functions
     def function(self, node: ast.FunctionDef, key: str, coq_name: str, self_type: str | None):
         params = []
@@ -317,12 +478,23 @@ class Translator:
             if a.annotation is None:
                 raise TransError(f'{key}: unannotated parameter {a.arg}')
             ann = ast.unparse(a.annotation)
+            if ann in self.str_enums:
+                params.append((a.arg, 'strenum'))
+                continue
             if ann not in ANNOT:
                 raise TransError(f'{key}: parameter type {ann}')
             params.append((a.arg, ANNOT[ann]))
         env = {n: (cname(n), t) for n, t in params}
         self.procedure = node.returns is not None and ast.unparse(node.returns) == 'None'
+        self.nodes[key] = node
         body, ret = self.block(node.body, env)
+        if ret is None and node.returns is not None and ast.unparse(node.returns) == 'NoReturn':
+            if params:
+                raise TransError(f'{key}: NoReturn function with parameters')
+            self.noreturn.add(key)
+            self.fns[key] = Fn(coq_name, params, 'unit')
+            self.out.append(f'Definition {coq_name} {{X}} : result X :=\n  {body}.\n')
+            return
         if ret is None:
             raise TransError(f'{key}: no returning path')
         if ret.startswith('option'):
@@ -353,6 +525,7 @@ def translate(sources: dict[str, str], targets: list[tuple[str, str, str, str | 
     """sources: {module: text}; targets: [(module, python name or Class.name, coq name, type tag of self or None)] in dependency order."""
     tr = Translator()
     trees = {m: ast.parse(s) for m, s in sources.items()}
+    tr.module_facts(trees)
     for mod, pyname, coq_name, self_type in targets:
         node = None
         if '.' in pyname:
